@@ -69,7 +69,7 @@ def mk_hist_fault(two=False):
         if two:
             comps.append(comp_fault(conc(t0, fam.FAULT_MENU), conc(t1, fam.FAULT_MENU), conc(h0, 5), conc(h1, 5), v + 3))
         comps.append(canary(v + 50))
-        return check_history(comps, sig=("hfault", conc(s0, 17), conc(s1, 17), conc(g0, 5), conc(g1, 5)))
+        return check_history(comps, sig=("hfault", conc(s0, fam.FAULT_MENU), conc(s1, fam.FAULT_MENU), conc(g0, 5), conc(g1, 5)))
     return f
 
 
@@ -117,7 +117,7 @@ def conds(tier):
     out.append(Cond("reentry", core.mk_reentry(P), core.REENTRY_PARAMS, pin=3, budget=150,
                     family="F-REENTRY active task at every step and after nested calls", encodes=core.ENC_SCHED))
     out.append(Cond("hist_fault", mk_hist_fault(False),
-                    [I("s0", 0, 16), I("s1", 0, 16), I("g0", 0, 4), I("g1", 0, 4), I("t0", 0, 0), I("t1", 0, 0),
+                    [I("s0", 0, fam.FAULT_MENU - 1), I("s1", 0, fam.FAULT_MENU - 1), I("g0", 0, 4), I("g1", 0, 4), I("t0", 0, 0), I("t1", 0, 0),
                      I("h0", 0, 0), I("h1", 0, 0), I("v")], pin=2, budget=200,
                     family="F-HIST [faulty computation, canary]", encodes=core.ENC_SCHED))
     out.append(Cond("hist_ctx", mk_hist_ctx(False),
@@ -135,7 +135,7 @@ def conds(tier):
     out.append(core.dagsync_cond("dagsync", P))
     if not q:
         out.append(Cond("hist_fault2", mk_hist_fault(True),
-                        [I("s0", 8, 16), I("s1", 0, 16), I("g0", 0, 2), I("g1", 0, 2), I("t0", 8, 16), I("t1", 0, 7),
+                        [I("s0", 8, fam.FAULT_MENU - 1), I("s1", 0, fam.FAULT_MENU - 1), I("g0", 0, 2), I("g1", 0, 2), I("t0", 8, fam.FAULT_MENU - 1), I("t1", 0, 7),
                          I("h0", 0, 2), I("h1", 0, 2), I("v")], pin=3, budget=1800,
                         family="F-HIST [faulty, faulty, canary]", encodes=core.ENC_SCHED))
         out.append(Cond("hist_ctx2", mk_hist_ctx(True),
